@@ -1,0 +1,6 @@
+//go:build !verif
+// +build !verif
+
+package disk
+
+func verifGate(point string) {}
